@@ -5,6 +5,7 @@ recipe; observed: the five licence collections and summary.used_licenses of `reu
 """
 
 import json
+import os
 import shutil
 
 from .. import trees
@@ -25,7 +26,7 @@ MIN_NONTRIVIAL = {"quick": 1500, "thorough": 30000}
 COLLS = ["missing_licenses", "unused_licenses", "bad_licenses", "deprecated_licenses", "licenses_without_extension", "used_licenses"]
 
 USES = ["alone", "plus", "and", "or", "with", "paren", "tags", "absorbed", "unused"]
-PROVS = ["absent", "txt", "md", "noext", "sub", "plusfile", "withlicense"]
+PROVS = ["absent", "txt", "md", "noext", "sub", "plusfile", "withlicense", "linkdir"]
 HELPER = "MIT"
 HELPER_EXC = "LLVM-exception"
 
@@ -196,6 +197,10 @@ def build_recipe(case, ctx):
         elif prov == "sub":
             licenses.append({"name": f"deep/er/{ident}.txt", "id": ident})
             P[ident] = f"LICENSES/deep/er/{ident}.txt"
+        elif prov == "linkdir":
+            # in a sub-directory of LICENSES/ that is a symbolic link to a shared place outside the project
+            licenses.append({"name": f"shared/{ident}.txt", "id": ident, "linkdir": True})
+            P[ident] = f"../shared-licenses/{ident}.txt"   # as the report normaliser spells it (links resolved)
         elif prov == "plusfile":
             licenses.append({"name": f"{ident}+.txt", "id": ident + "+"})
             P[ident + "+"] = f"LICENSES/{ident}+.txt"
@@ -271,6 +276,11 @@ def run_case(case, ctx):
     top, root = trees.odd_root(ctx.scratch, "c06", case["k"])
     try:
         trees.build(recipe, root, ctx.state["styles"])
+        if (root / "LICENSES" / "shared").is_dir():
+            outside = top / "shared-licenses"
+            shutil.move(str(root / "LICENSES" / "shared"), str(outside))
+            os.symlink(str(outside), root / "LICENSES" / "shared")
+            res.cell("licenses:linked-directory")
         cwd, gargs = trees.place_lint(rng_for(ctx.seed, "c06place", case["k"]), root)
         r = run_cli(["--no-multiprocessing"] + gargs + ["lint", "--json"], cwd=cwd)
         res.n = len(cells)
@@ -283,6 +293,24 @@ def run_case(case, ctx):
             res.violation("lint-json-unparseable", "no JSON", **r.brief())
             return res.out()
         obs = trees.lint_observed(data, root, cwd)
+        # the line-per-problem rendering names every (file, identifier) pair of the two per-file licence collections
+        rl = run_cli(["--no-multiprocessing"] + gargs + ["lint", "--lines"], cwd=cwd)
+        if not rl.escaped:
+            import re as _re
+
+            seen = {"missing_licenses": set(), "bad_licenses": set()}
+            for line in rl.stdout.splitlines():
+                m = _re.match(r"^(.*): (missing|bad) license '?(.*?)'?$", line)
+                if m:
+                    seen[m.group(2) + "_licenses"].add((trees.norm_path(m.group(1), root, cwd), m.group(3)))
+            for c in ("missing_licenses", "bad_licenses"):
+                want_pairs = {(pth, ident) for ident, paths in obs[c].items() for pth in paths}
+                if seen[c] != want_pairs and (seen[c] or want_pairs):
+                    lost = sorted(want_pairs - seen[c])[:4]
+                    extra = sorted(seen[c] - want_pairs)[:4]
+                    res.violation(f"lines-vs-json:{c}", f"lint --lines and lint --json disagree on {c}: only in JSON {lost}, only in lines {extra}",
+                                  lines=rl.stdout[-600:])
+            res.cell("lines-cross-check")
         for c in COLLS:
             e, o = exp[c], obs[c]
             if e == o:
